@@ -66,81 +66,81 @@ def notify_call(F, rs):
     return out[0]
 
 
+def _is_failed_term(tab, no_fn):
+    """The awaited attempt verdict: the await term passed as the `failed` argument of the completion notification."""
+    for p in tab:
+        for e in p.effects:
+            if e[0] == "call" and e[1] == no_fn.name:
+                for a in e[2]:
+                    if isinstance(a, tuple) and a and a[0] == "await":
+                        return a
+    return None
+
+
 def r1(F, R):
+    """Decided on the path table of RUN_SCENARIO's coroutine (deep.py): which effects happen under which conditions."""
     rs, nested = rs_bodies(F)
     s_re, t_re, re_co = reinsert_call(F, rs)
+    re_fn = F.parent_body(re_co)
     s_no, t_no, no_fn, s_send, t_send = notify_call(F, rs)
-    # guard: next_try is Some
-    vc = A.vc_at(rs, s_re)
-    some_keys = [k for k, v in vc.items() if v == frozenset(["Some"])]
-    nt_local = None
-    for k in some_keys:
-        m = re.match(r"^_(\d+)$", k)
-        if m and rs.locals[int(m.group(1))].startswith("std::option::Option<runner::basic::RetryOptions>"):
-            nt_local = int(m.group(1))
-    R.check(nt_local is not None, "reinsert-iff-next-try", s_re, "re-insertion only when next_try is Some",
-            "the retry re-insertion is not guarded by `next_try` being Some")
-    if nt_local is None:
-        return
-    # next_try = retries.filter(|_| is_failed).and_then(RetryOptions::next_try)
-    sl = A.slice_back(rs, start_locals=[nt_local])
-    filt = sl.calls_matching(r"Option::<.*>::filter$")
-    andt = sl.calls_matching(r"Option::<.*>::and_then$")
-    ok_f = False
-    if len(filt) == 1:
-        kb = A.closure_of_operand(F, rs, filt[0][1]["args"][1])
-        if kb is not None:
-            ksl = A.slice_back(kb, start_locals=[0])
-            # the closure returns its captured bool unchanged
-            if ksl.upvars and not ksl.calls and not ksl.bins and not ksl.consts:
-                parent, ups = A.closure_upvar_operands(F, kb)
-                cap = [ups[i] for i in ksl.upvars if i in ups]
-                psl = A.slice_back(rs, cap)
-                # the captured bool is the awaited result of the is_failed future
-                ok_f = any(aw.poll_site in psl.sites for aw in A.awaits(rs) if re.search(r"Output = bool|YieldThenReturn<bool>|bool", aw.fut_type))
-        recv = A.slice_back(rs, [filt[0][1]["args"][0]])
-        ok_f = ok_f and bool(recv.upvars or recv.params)
-    R.check(ok_f, "next-try-filter-is-failed", filt[0][0] if filt else s_re, "retries.filter(|_| is_failed)",
-            "next_try is not `retries.filter(|_| is_failed)`: a passed or skipped attempt could be retried, or a failed one not")
-    ok_a = False
-    if len(andt) == 1:
-        f = op_fn(andt[0][1]["args"][1]) or None
-        fb = F.body(f["path"]) if f and f.get("local") else None
-        if fb is not None and fb.locals[0] == "std::option::Option<runner::basic::RetryOptions>":
-            ok_a = any(F.callee_body(t2) is not None and F.callee_body(t2).impl and F.callee_body(t2).impl.get("self_adt") == "event::Retries"
-                       for _, t2 in fb.calls())
-    R.check(ok_a, "next-try-budget", andt[0][0] if andt else s_re, ".and_then(RetryOptions::next_try)",
-            "next_try does not go through RetryOptions::next_try -> Retries::next_try (budget arithmetic bypassed)")
-    others = [callee_path(t) for _, t in sl.calls if not callee_is(t, r"Option::<.*>::(filter|and_then)$", r"Future::poll$", r"get_context", r"new_unchecked",
-                                                                  r"IntoFuture::into_future$", r"then_yield$", r"Instrument", r"scenario_span", r"Span::id$")
-              and s_re.bb not in (0,)]
-    # the re-inserted options are exactly next_try
-    rsl = A.slice_back(rs, t_re["args"][1:])
-    R.check(nt_local in rsl.locals, "reinsert-uses-next-try", s_re, "re-inserted with Some(next_try)", "the re-inserted scenario does not carry `next_try`")
-    # order: after Finished emission, before notification
-    fin = [(s, st) for s, st in rs.assigns(lambda st: st["rv"]["k"] == "agg" and st["rv"].get("adt") == "event::Scenario" and st["rv"]["variant"] == "Finished")]
-    R.check(len(fin) == 1 and rs.dominates(fin[0][0], s_re), "reinsert-after-finished", s_re, "re-insertion follows the Finished emission",
-            "the scenario is re-inserted before its Finished event is built/emitted (attempts could overlap)")
-    if len(fin) == 1:
-        sends = [s for s, t in rs.calls() if F.callee_body(t) is not None and rs.dominates(fin[0][0], s) and
-                 any(True for _ in roles.sends(F, [F.callee_body(t)])) and F.callee_body(t) is not no_fn]
-        R.check(any(rs.dominates(s, s_re) for s in sends), "finished-sent-before-reinsert", s_re, "Finished is sent before re-insertion",
-                "Finished is not sent before the scenario is re-inserted")
-    R.check(rs.dominates(s_re, s_no) is False and not rs.site_reaches(s_no, s_re), "notify-not-before-reinsert", s_no,
-            "", "the completion notification can precede the re-insertion")
-    sw_bb = None
-    for g in A.guards_of(rs, s_re):
-        d = g.cond_def()
-        if d and d[0] == "discr" and A.canon_place(rs, d[1])["l"] == nt_local:
-            sw_bb, some_t = g.bb, g.targets[0]
-    if sw_bb is not None:
-        skip = _reaches_block(rs, some_t, s_no.bb, [s_re])
-        R.check(not skip, "reinsert-before-notify", s_no, "on the Some edge the notification is reached only through the re-insertion",
-                "with a retry left, the completion is notified without re-inserting the scenario first")
-    # notification flag
-    asl = A.slice_back(rs, [t_no["args"][-1]])
-    ok_flag = any(callee_is(t, r"Option::<.*>::is_some$") and nt_local in A.slice_back(rs, [t["args"][0]]).locals for _, t in asl.calls)
-    R.check(ok_flag, "notify-retried-flag", s_no, "retried flag = next_try.is_some()", "the `retried` flag of the completion message is not next_try.is_some()")
+    tab = D.Deep(F, rs, inline=False, max_paths=4000).run()
+    if not tab or any(p.cut for p in tab):
+        raise Unverifiable("RUN_SCENARIO: empty path table or a loop")
+    T = _is_failed_term(tab, no_fn)
+    if T is None:
+        raise Unverifiable("the attempt's verdict (awaited bool passed to the completion notification) was not found")
+    nt_fns = [b for b in F.crate_bodies() if b.locals[0] == "std::option::Option<runner::basic::RetryOptions>" and b.impl and b.impl.get("self_adt") == "runner::basic::RetryOptions"
+              and not b.impl.get("trait") and b.arg_count == 1]
+    if len(nt_fns) != 1:
+        raise Unverifiable(f"RetryOptions::next_try role: {len(nt_fns)}")
+    nt_fn = nt_fns[0]
+    ok_a = any(F.callee_body(t2) is not None and F.callee_body(t2).impl and F.callee_body(t2).impl.get("self_adt") == "event::Retries" for _, t2 in nt_fn.calls())
+    R.check(ok_a, "next-try-budget", nt_fn, ".and_then(RetryOptions::next_try)", "RetryOptions::next_try does not go through Retries::next_try (budget arithmetic bypassed)")
+    n_re = 0
+    for p in tab:
+        failed = [out for a, out in p.conds if a == T]
+        failed = failed[0] if failed else None
+        ntc = [(i, e) for i, e in enumerate(p.effects) if e[0] == "call" and e[1] == nt_fn.name]
+        nt_out = None
+        nt_term = None
+        if ntc:
+            e = ntc[0][1]
+            nt_term = ("call", e[1], e[2], e[4])
+            for a, out in p.conds:
+                if a == ("discr", nt_term):
+                    nt_out = out
+        res = [(i, e) for i, e in enumerate(p.effects) if e[0] == "call" and e[1] == re_fn.name]
+        res_aw = [(i, e) for i, e in enumerate(p.effects) if e[0] == "await" and e[1][0] == "call" and e[1][1] == re_fn.name]
+        nos = [(i, e) for i, e in enumerate(p.effects) if e[0] == "call" and e[1] == no_fn.name]
+        fin = [i for i, e in enumerate(p.effects) if e[0] == "call" and re.search(r"send_event", e[1]) and
+               any(D.mentions(x, lambda y: D.is_variant(y, "event::Scenario", "Finished")) for x in e[2])]
+        reins = bool(res_aw)
+        R.check(len(res) == len(res_aw), "reinsert-awaited", s_re, "the re-insertion future is awaited", "the re-insertion future is created but not awaited")
+        R.check(reins == (failed is True and nt_out == "Some"), "reinsert-iff-next-try", s_re, "re-insertion ⇔ failed ∧ next_try is Some",
+                f"the scenario is {'re-inserted' if reins else 'not re-inserted'} on a path with verdict={failed}, next_try={nt_out}")
+        R.check(not ntc or failed is True, "next-try-filter-is-failed", s_re, "next_try is computed only for a failed attempt",
+                "next_try is computed for an attempt that did not fail: a passed or skipped attempt could be retried")
+        if ntc:
+            arg = ntc[0][1][2][0]
+            R.check(D.mentions(arg, lambda y: y[0] == "field" and y[1] in (("arg", 1), ("deref", ("arg", 1)))), "next-try-from-retries", s_re, "next_try(retries of this attempt)",
+                    "next_try is not computed from this attempt's retry options")
+        if reins:
+            n_re += 1
+            i_re = res_aw[0][0]
+            R.check(D.mentions(res[0][1][2], lambda y: y == nt_term), "reinsert-uses-next-try", s_re, "re-inserted with Some(next_try)",
+                    "the re-inserted scenario does not carry `next_try`")
+            R.check(bool(fin) and fin[-1] < i_re, "reinsert-after-finished", s_re, "re-insertion follows the sending of Finished",
+                    "the scenario is re-inserted before its Finished event is sent (attempts could overlap)")
+            R.check(bool(nos) and i_re < nos[0][0], "reinsert-before-notify", s_no, "the notification follows the re-insertion",
+                    "with a retry left, the completion is notified without re-inserting the scenario first")
+        if len(nos) != 1:
+            R.violation("notify-once", s_no, f"{len(nos)} completion notifications on one path")
+            continue
+        flag = nos[0][1][2][-1]
+        R.check(flag == ("const", reins), "notify-retried-flag", s_no, "retried flag = next_try.is_some()",
+                f"the `retried` flag of the completion message is {D.fmt(rs, flag)[:60]} on a path where the scenario is {'re-inserted' if reins else 'not re-inserted'}")
+        R.check(bool(fin) and fin[-1] < nos[0][0], "finished-sent-before-notify", s_no, "Finished is sent before the completion is notified", "the completion can be notified before Finished is sent")
+    R.check(n_re >= 1, "reinsert-path-exists", s_re, "a path re-inserts", "no path re-inserts the scenario")
     R.floor(8)
 
 
@@ -171,74 +171,74 @@ def edge_const(body, bb, local, limit=12):
 
 
 def r2(F, R):
+    """The attempt's verdict, decided on the path table of the attempt future (the async block whose awaited bool is the
+    verdict): verdict ⇔ result ∈ {BeforeHookPanicked, StepPanicked} ∨ the after hook failed."""
     rs, nested = rs_bodies(F)
-    # the classification: a switch on discriminant(ExecutionFailure) all of whose edges assign a constant to one bool
-    found = []
-    for b in nested:
-        for bb in sorted(b.live_blocks):
-            t = b.blocks[bb]["term"]
-            if t["k"] != "switch" or op_local(t["discr"]) is None:
-                continue
-            d = A.local_def_desc(b, op_local(t["discr"]))
-            if d[0] != "discr" or d[2] != "runner::basic::ExecutionFailure":
-                continue
-            vmap = {v: n for v, n in d[3]}
-            bools = [l for l, ty in enumerate(b.locals) if ty == "bool" and len(bool_consts(b, l)) >= 2 and all(v is not None for _, v in bool_consts(b, l))]
-            for l in bools:
-                table = {}
-                listed = {v for v, _ in t["targets"]}
-                for v, tg in t["targets"]:
-                    table[vmap.get(v, str(v))] = edge_const(b, tg, l)
-                if not (b.blocks[t["otherwise"]]["term"]["k"] == "unreachable" and not b.blocks[t["otherwise"]]["stmts"]):
-                    for v, n in vmap.items():
-                        if v not in listed:
-                            table[n] = edge_const(b, t["otherwise"], l)
-                if all(x is not None for x in table.values()) and len(table) == len(vmap):
-                    found.append((b, bb, l, table, d))
-    if len(found) != 1:
-        raise Unverifiable(f"is_failed classification switches found: {len(found)}")
-    b, bb, l, table, d = found[0]
-    site = Site(b, bb, "T")
-    want = {"BeforeHookPanicked": True, "StepPanicked": True, "StepSkipped": False}
-    R.check(table == want, "failure-classification-table", site, f"{table}",
-            f"an attempt is classified failed by {table}; expected {want}")
-    # the Ok arm of the enclosing Result leads to `false`
-    res_ok = None
-    for g in A.guards_of(b, site):
-        dd = g.cond_def()
-        if dd and dd[0] == "discr" and dd[2] == "std::result::Result":
-            for v, tg in g.term["targets"]:
-                if {vv: n for vv, n in dd[3]}.get(v) == "Ok":
-                    res_ok = edge_const(b, tg, l)
-    R.check(res_ok is False, "ok-is-not-failed", site, "Ok(_) => false", f"the Ok arm classifies the attempt as {res_ok}")
-    # verdict = classification || after_hook_error.is_some()
-    verdict = None
-    for site0, kind, payload in b.defs.get(0, []):
-        if kind == "assign" and payload["rv"]["k"] == "use" and op_local(payload["rv"]["op"]) is not None:
-            verdict = op_local(payload["rv"]["op"])
-    if verdict is None:
-        raise Unverifiable("verdict local of the attempt future not found")
-    ds = b.defs.get(verdict, [])
-    const_true = [s for s, k, p in ds if k == "assign" and p["rv"]["k"] == "use" and const_int(p["rv"]["op"]) == 1]
-    is_some = [(s, p) for s, k, p in ds if k == "call" and callee_is(p, r"Option::<.*>::is_some$")]
-    ok_shape = len(ds) == 2 and len(const_true) == 1 and len(is_some) == 1
-    R.check(ok_shape, "verdict-is-disjunction", Site(b, ds[0][0].bb, "T") if ds else site, "is_failed = classification || after_hook_error.is_some()",
-            f"the attempt's verdict has {len(ds)} definitions ({len(const_true)} const-true, {len(is_some)} is_some)")
-    if ok_shape:
-        def guard_pol(s):
-            for g in A.guards_of(b, s):
-                gl = g.discr_local
-                if gl is not None and l in A.slice_back(b, start_locals=[gl]).locals:
-                    return g.polarity()
-            return None
-        R.check(guard_pol(const_true[0]) is True, "verdict-true-when-classified-failed", const_true[0], "", "a failed step/hook does not make the attempt failed")
-        R.check(guard_pol(is_some[0][0]) is False, "after-hook-error-considered-otherwise", is_some[0][0], "", "after-hook error is not consulted when the steps did not fail")
-        asl = A.slice_back(b, [is_some[0][1]["args"][0]])
-        from_after = any(aw.poll_site in asl.sites for aw in A.awaits(b) if "AfterHookEventsMeta" in aw.fut_type)
-        R.check(from_after, "failed-on-after-hook-error", is_some[0][0], "failed ⇐ after-hook error",
-                "the value OR-ed into the verdict is not the after-hook error (an after-hook failure would not fail the attempt)")
-        # the after hook error is the third component (Err side) of run_after_hook's result
-    R.floor(6)
+    EF = "runner::basic::ExecutionFailure"
+    cands = [b for b in nested if b.is_coroutine and b is not rs and any("AfterHookEventsMeta" in aw.fut_type for aw in A.awaits(b))]
+    if len(cands) != 1:
+        raise Unverifiable(f"attempt future (async block awaiting the after hook): {len(cands)}")
+    b = cands[0]
+    ah_names = set()
+    for aw in A.awaits(b):
+        if "AfterHookEventsMeta" not in aw.fut_type or aw.src_op is None:
+            continue
+        l = op_local(aw.src_op)
+        sd = b.single_def(l) if l is not None else None
+        if sd and sd[1] == "call" and op_fn(sd[2]["func"]):
+            f = op_fn(sd[2]["func"])
+            ah_names.add(f.get("res") or f["path"])
+    if len(ah_names) != 1:
+        raise Unverifiable(f"after-hook routine: {len(ah_names)}")
+    ah = next(iter(ah_names))
+    tab = D.Deep(F, b, inline=False, max_paths=6000).run()
+    if not tab or any(p.cut for p in tab):
+        raise Unverifiable("attempt future: empty path table or a loop")
+    efa = F.adts.get(("cucumber", EF))
+    all_ef = {v["name"] for v in efa["variants"]}
+    FAIL = {"BeforeHookPanicked", "StepPanicked"}
+    R.check(all_ef == FAIL | {"StepSkipped"}, "failure-kinds", b, f"{sorted(all_ef)}", f"ExecutionFailure has variants {sorted(all_ef)}: the classification table covers {sorted(FAIL | {'StepSkipped'})}")
+    seen_ef, bad_table, bad_ok, bad_ah, n_ah_err = set(), None, None, None, 0
+    for p in tab:
+        if not (p.ret[0] == "const" and isinstance(p.ret[1], bool)):
+            raise Unverifiable(f"the attempt future returns {D.fmt(b, p.ret)[:60]}")
+        ef = None
+        for a, out in p.conds:
+            if a[0] == "discr" and isinstance(out, str) and set(out.split("|")) <= all_ef:
+                vs = set(out.split("|"))
+                ef = vs if ef is None else ef & vs
+        ah_out = None
+        for a, out in p.conds:
+            if a[0] == "discr" and a[1][0] == "await" and a[1][1][0] == "call" and a[1][1][1] == ah:
+                ah_out = out
+        if ah_out is None:
+            R.violation("after-hook-consulted", b, "a path of the attempt future finishes without consulting the after hook's result")
+            continue
+        if ef is not None:
+            seen_ef |= ef
+        classified = ef is not None and ef <= FAIL
+        mixed = ef is not None and not ef <= FAIL and ef & FAIL
+        if mixed and ah_out != "Err":
+            bad_table = f"failure kinds {sorted(ef)} are not told apart"
+            continue
+        want = classified or ah_out == "Err"
+        if ah_out == "Err":
+            n_ah_err += 1
+        if p.ret[1] != want:
+            if ah_out == "Err":
+                bad_ah = "an after-hook failure does not fail the attempt"
+            elif ef is None:
+                bad_ok = p.ret[1]
+            else:
+                bad_table = f"{sorted(ef)} -> {p.ret[1]}"
+    site = b
+    R.check(bad_table is None and seen_ef == all_ef, "failure-classification-table", site, "BeforeHookPanicked, StepPanicked -> failed; StepSkipped -> not failed",
+            f"an attempt is classified failed wrongly ({bad_table or 'kinds seen: ' + str(sorted(seen_ef))}); expected BeforeHookPanicked, StepPanicked -> failed, StepSkipped -> not failed")
+    R.check(bad_ok is None, "ok-is-not-failed", site, "Ok(_) => false", f"the Ok arm classifies the attempt as {bad_ok}")
+    R.check(bad_ah is None and n_ah_err >= 1, "verdict-is-disjunction", site, "is_failed = classification || after_hook_error.is_some()",
+            bad_ah or "no path sees the after hook fail")
+    R.check(bad_ah is None and n_ah_err >= 1, "failed-on-after-hook-error", site, "failed ⇐ after-hook error", bad_ah or "no path sees the after hook fail")
+    R.floor(4)
 
 
 def r3(F, R):
